@@ -76,7 +76,8 @@ Apply(ln) ==
       [] ln.ev = "StoreAcked"  -> StoreAcked(Trace[ResetLine(l)].a.ids, ln.a.vs)
       [] ln.ev = "Get"         -> Get(LId(ln.a.id))
       [] ln.ev = "Gap"         -> Gap(LSt(ln.a.st))
-      [] ln.ev = "GapBackfill" -> GapBackfill(LSt(ln.a.st), LVals(ln.a.fills), LVals(ln.a.served), ln.s.err # "")
+      [] ln.ev = "GapBackfill" -> /\ OnlyThroughProcessor(LVals(ln.a.fills), LVals(ln.a.injected))
+                                  /\ GapBackfill(LSt(ln.a.st), LVals(ln.a.fills), LVals(ln.a.served), ln.s.err # "")
       [] ln.ev = "GovBatch"    -> GovBatch(ToSet(ln.a.seqs))
       [] ln.ev = "NonGovBatch" -> NonGovBatch(LSt(ln.a.st), ToSet(ln.a.seqs))
       [] ln.ev = "Kill"        -> CrashTo(FoundAfter(l))
